@@ -17,6 +17,7 @@ static GLOBAL: isolate::Counting = isolate::Counting;
 mod c01;
 mod c02;
 mod c03;
+mod c05;
 mod c06;
 mod c07;
 mod c09x;
@@ -40,6 +41,7 @@ fn checks() -> Vec<Check> {
         Check { id: "C01", level: "fault_enumeration", run: c01::run, replay: Some(c01::replay) },
         Check { id: "C02", level: "model_checking", run: c02::run, replay: Some(c02::replay) },
         Check { id: "C03", level: "model_checking", run: c03::run, replay: Some(c03::replay) },
+        Check { id: "C05", level: "model_checking", run: c05::run, replay: Some(c05::replay) },
         Check { id: "C06", level: "model_checking", run: c06::run, replay: Some(c06::replay) },
         Check { id: "C07", level: "model_checking", run: c07::run07, replay: Some(c07::replay07) },
         Check { id: "C08", level: "model_checking", run: c07::run08, replay: Some(c07::replay08) },
